@@ -28,6 +28,11 @@ func DefaultConfig() config.Config {
 }
 
 func (server *SugarDB) GetServerInfo() internal.ServerInfo {
+	// memUsed is updated under the store lock by every write: read it under the same lock.
+	server.storeLock.RLock()
+	memUsed := server.memUsed
+	server.storeLock.RUnlock()
+
 	return internal.ServerInfo{
 		Server:  "sugardb",
 		Version: constants.Version,
@@ -48,7 +53,7 @@ func (server *SugarDB) GetServerInfo() internal.ServerInfo {
 			return "replica"
 		}(),
 		Modules:    server.ListModules(),
-		MemoryUsed: server.memUsed,
+		MemoryUsed: memUsed,
 		MaxMemory:  server.config.MaxMemory,
 	}
 }
